@@ -336,6 +336,10 @@ def random_jobs(rnd: random.Random, n: int) -> list:
                 cmds.append(["write", f"{n_};{c_};{cmd_};{a_};{t_};{pay}\n", rnd.random() < 0.85])
             elif r < 0.95:
                 cmds.append(["broker_error"])
+        if k % 40 == 7:   # a burst of broker messages nobody reads meanwhile, then all are read
+            burst = rnd.choice([30, 120, 260])
+            cmds = [["connect", "ok"]] + [["broker_msg", f"{inp}/1/1/1/0/2", list(str(i).encode())] for i in range(burst)]
+            cmds += [["read"]] * (burst + 1)
         if rnd.random() < 0.6:
             cmds.append(["disconnect"])
         jobs.append(("client" if k % 3 else "minimal", inp, outp, cmds))
